@@ -60,7 +60,7 @@ func bbAtom(op, side, ax string) *Term {
 // exemptions, each confirmed by reading the code
 // bb4Ctors names the constructors BB-4 has a closed-form box for (kept in step with
 // the specs table: ruleBB4 reports a checker problem for a spec that is not listed).
-var bb4Ctors = map[string]bool{"Box3D": true, "Box2D": true, "Sphere3D": true, "Circle2D": true, "Cylinder3D": true, "Line2D": true,
+var bb4Ctors = map[string]bool{"NewFlange1": true, "Box3D": true, "Box2D": true, "Sphere3D": true, "Circle2D": true, "Cylinder3D": true, "Line2D": true,
 	"Offset3D": true, "Offset2D": true, "Shell3D": true, "Elongate3D": true, "Elongate2D": true, "Extrude3D": true, "ExtrudeRounded3D": true,
 	"Loft3D": true, "ScaleExtrude3D": true, "TwistExtrude3D": true, "Transform3D": true, "Transform2D": true, "ScaleUniform3D": true,
 	"ScaleUniform2D": true, "Array3D": true, "Array2D": true, "Difference3D": true, "Difference2D": true, "Cut3D": true, "Cut2D": true}
@@ -667,6 +667,23 @@ func leavesOf(t *Term, fn string) []*Term {
 			}
 			return
 		}
+		// a negative multiple of the dual nest: −max(a, b) = min(−a, −b)
+		if x.Op == "*" && len(x.Args) == 2 && add.IsZero() {
+			dual := "math.Min"
+			if fn == "math.Min" {
+				dual = "math.Max"
+			}
+			k, c := x.Args[0], x.Args[1]
+			if c.Op == "c" {
+				k, c = c, k
+			}
+			if k.Op == "c" && k.C.Sign() < 0 && c.Op == "call" && c.S == dual {
+				for _, l := range leavesOf(c, dual) {
+					out = append(out, Mul(k, l))
+				}
+				return
+			}
+		}
 		if x.Op == "+" {
 			var calls, rest []*Term
 			for _, a := range x.Args {
@@ -735,6 +752,14 @@ func ruleBB4(ctx *Ctx, r *Report, ctors []bbCtor) {
 		return m
 	}
 	specs := []bb4spec{
+		{"NewFlange1", func() map[string][]*Term {
+			// three circles: (0,0) radius centerRadius, (±distance,0) radius sideRadius, and their hull
+			m := map[string][]*Term{}
+			sym(m, "X", Add(A("distance"), A("sideRadius")))
+			m["Max.Y"] = []*Term{A("centerRadius"), A("sideRadius")}
+			m["Min.Y"] = []*Term{Neg(A("centerRadius")), Neg(A("sideRadius"))}
+			return m
+		}, "hull of the centre circle and the two side circles (either may be the larger)"},
 		{"Box3D", func() map[string][]*Term {
 			m := map[string][]*Term{}
 			for _, ax := range axes3 {
